@@ -1,4 +1,5 @@
 import PyPhysim.Proofs.C03Mu
+import PyPhysim.Proofs.C03MuMimo
 import PyPhysim.Proofs.C03Hist
 import PyPhysim.Proofs.C03Disc
 import PyPhysim.Proofs.C03Aux
@@ -583,6 +584,121 @@ theorem mu_freq_siso (proc : Proc α) (fftK : Fft α) (nRx nTx : Nat) (hR : 0 < 
     rw [hsrc]
   · intro l
     exact ⟨su_lastIR (Lk l) _ _ rfl, by rw [Su.report_n]; exact (hlast l).2.1⟩
+
+/-- CLAUSE "multiuser, frequency domain, MIMO links" (`MuMimoChannel.corrupt_data_in_freq_domain`,
+    inherited from `MuChannel`).  `nRx × nTx` links in row-major order; link `(r, t)` is a MIMO TDL
+    channel with `Nr r × Nt t` antennas (`MuMimoChannel` builds them with one pair of counts; the
+    theorem allows any); direction `sw` (`false`: transmitters → receivers, `true`: switched);
+    any per-link path losses (kernel homogeneity is needed only when some path loss is set); any
+    selection (`None` / index array / slice) accepted by `freqPlan`, i.e. `n = nb` blocks of
+    `B = ps.length` symbols; every link in an arbitrary state, hence after any history.
+
+    Source `a` sends `nIn a` rows of `n` symbols (`nIn = Nt`, switched: `Nr`).  Destination `j`
+    receives `nOut j` rows (`nOut = Nr`, switched: `Nt`) of `n` entries; row `r`, flat position `m`
+    holds `Σ_sources freqAtFlat (response reported by the link between them) …`, which by
+    `mu_freq_mimo_entry` is, at `m = b·B + q`,
+    `Σ_a Σ_i FFT(dense taps (r, i) of sample b reported by link (j, a))[ps[q]] · x_a[i][b·B + q]`.
+
+    For every link: the response it reports afterwards is `ir link` with one sample per block, the
+    configuration is unchanged, the fading position advanced by `nb·stride`, and sample `b` of the
+    reported taps is the fading process at absolute position `pos + b·stride` times the tap amplitude
+    (times `√pathloss` if set) — the schedule clause `freq_uses_sample` for each link. -/
+theorem mu_freq_mimo_spec (proc : Proc α) (fftK : Fft α) (nRx nTx : Nat) (hR : 0 < nRx) (hT : 0 < nTx)
+    (Lk : Nat → Su α) (Nr Nt : Nat → Nat) (sw : Bool)
+    (hant : ∀ l, l < nRx * nTx → (Lk l).tdl.ant = some (Nr (l / nTx), Nt (l % nTx)))
+    (hsw : ∀ l, l < nRx * nTx → (Lk l).tdl.switched = sw)
+    (hIn : ∀ a, a < (if sw then nRx else nTx) → 0 < (if sw then Nr a else Nt a))
+    (hK : (∀ l, l < nRx * nTx → (Lk l).pl = none) ∨ Fft.Homogeneous fftK)
+    (sel : Sel) (fft n : Nat) (ps : List Nat) (B nb : Nat) (hplan : freqPlan sel fft n = .ok (ps, B, nb))
+    (xf : Nat → Nat → Nat → α) :
+    ∃ (L' : Nat → Su α) (ir : Nat → IR α),
+      Mu.corruptFreq proc fftK { nRx := nRx, nTx := nTx, links := tab (nRx * nTx) Lk }
+          (tab (if sw then nRx else nTx) (fun a => tab (if sw then Nr a else Nt a) (fun i => tab n (xf a i)))) fft sel
+        = .ok ({ nRx := nRx, nTx := nTx, links := tab (nRx * nTx) L' },
+               tab (if sw then nTx else nRx) (fun j => tab (if sw then Nt j else Nr j) (fun r => tab n (fun m =>
+                 ((List.range (if sw then nRx else nTx)).map (fun a =>
+                   freqAtFlat fftK (ir (muLink sw nTx j a)) sw fft ps (if sw then Nr a else Nt a) (xf a) r m)).sum)))) ∧
+      ∀ l, l < nRx * nTx →
+        (L' l).lastIR = .ok (ir l) ∧ (ir l).n = nb ∧ (ir l).delays = (Lk l).tdl.delays ∧
+        (L' l).pl = (Lk l).pl ∧ (L' l).tdl.taps = (Lk l).tdl.taps ∧ (L' l).tdl.ant = (Lk l).tdl.ant ∧
+        (L' l).tdl.switched = (Lk l).tdl.switched ∧ (L' l).tdl.jakes = (Lk l).tdl.jakes ∧
+        (L' l).tdl.link = (Lk l).tdl.link ∧
+        (L' l).tdl.pos = (Lk l).tdl.pos + nb * (if (Lk l).tdl.jakes then fft else 1) ∧
+        ∀ r t b, b < nb → (ir l).vals.map (fun h => h r t b)
+          = (Lk l).tdl.taps.zipIdx.map (fun ta => plMul (Lk l).pl
+              (proc (Lk l).tdl.link ((Lk l).tdl.pos + b * (if (Lk l).tdl.jakes then fft else 1)) ta.2 r t * ta.1.2)) :=
+  mu_corruptFreq_mimo proc fftK nRx nTx hR hT Lk Nr Nt sw hant hsw hIn hK sel fft n ps B nb hplan xf
+
+/-- the link between destination `j` and source `a` is link `(receiver, transmitter)` in row-major
+    order: `(j, a)` in the original direction, `(a, j)` when switched -/
+theorem muLink_spec (nTx j a : Nat) :
+    muLink false nTx j a = j * nTx + a ∧ muLink true nTx j a = a * nTx + j := ⟨rfl, rfl⟩
+
+/-- reading of `freqAtFlat` in `mu_freq_mimo_spec`: at position `q` of block `b` (flat position
+    `b·B + q`, `B = ps.length`), on the `q`-th selected carrier `p = ps[q]`, the contribution of one
+    link to output antenna `r` is `Σ_i FFT(dense taps of antenna pair (r, i), sample b)[p] · x[i][b·B + q]`
+    (antenna pair `(i, r)` of the stored `Nr × Nt` response in the switched direction) -/
+theorem mu_freq_mimo_entry (fftK : Fft α) (ir : IR α) (sw : Bool) (fft : Nat) (ps : List Nat) (nIn : Nat)
+    (xf : Nat → Nat → α) (r b q p : Nat) (hp : ps[q]? = some p) :
+    freqAtFlat fftK ir sw fft ps nIn xf r (b * ps.length + q)
+      = ((List.range nIn).map (fun i =>
+          fftK (if sw then ir.denseAt i r b else ir.denseAt r i b) fft p * xf i (b * ps.length + q))).sum := by
+  have hq : q < ps.length := by
+    by_contra h
+    rw [List.getElem?_eq_none (Nat.le_of_not_lt h)] at hp
+    cases hp
+  rw [freqAtFlat_block fftK ir sw fft ps nIn xf r b q hq, hp]
+  rfl
+
+/-- "with path loss", as an explicit factor per link: a link with `√pathloss = s` reports the TDL
+    response `h` scaled by `s`, and (homogeneous kernel) its contribution to every received entry
+    is `s` times the contribution computed from the unscaled `h`; so receiver `j` gets
+    `Σ_t s(j,t) · Σ_i H^{(j,t)}_b[r, i][ps[q]] · x_t[i][b·B + q]`.  Without a path loss the link
+    reports `h` itself. -/
+theorem mu_freq_mimo_pathloss_factor (fftK : Fft α) (hK : Fft.Homogeneous fftK) (c : Su α) (h : IR α)
+    (hlast : c.tdl.lastIR = .ok h) (sw : Bool) (fft : Nat) (ps : List Nat) (nIn : Nat)
+    (xf : Nat → Nat → α) (r m : Nat) :
+    (c.pl = none → c.lastIR = .ok h) ∧
+    (∀ s, c.pl = some s → c.lastIR = .ok (h.scale s) ∧
+      freqAtFlat fftK (h.scale s) sw fft ps nIn xf r m = s * freqAtFlat fftK h sw fft ps nIn xf r m) := by
+  constructor
+  · intro hpl
+    simp [Su.lastIR, hlast, hpl, bind, Except.bind, pure, Except.pure]
+  · intro s hpl
+    refine ⟨?_, freqAtFlat_scale fftK hK s h sw fft ps nIn xf r m⟩
+    simp [Su.lastIR, hlast, hpl, bind, Except.bind, pure, Except.pure]
+
+/-- non-vacuity of `mu_freq_mimo_spec` (K = 2 users, every receiver 2 antennas, every transmitter 1,
+    i.e. 2×1 links; switched, the same links act as 1×2 links): the hypotheses hold for the
+    channel `MuMimoChannel(2, 2, 1, …)` builds, with a path loss on every link, 2 blocks over
+    `slice(0, 10, 3)` of 16 carriers. -/
+example :
+    let mk : Bool → Nat → Su Int := fun sw l =>
+      { tdl := { Tdl.init [(0, 1), (2, 3)] (some (2, 1)) true l with switched := sw }, pl := some 2 }
+    ∀ sw : Bool,
+      (∀ l, l < 2 * 2 → (mk sw l).tdl.ant = some ((fun _ => 2) (l / 2), (fun _ => 1) (l % 2))) ∧
+      (∀ l, l < 2 * 2 → (mk sw l).tdl.switched = sw) ∧
+      (∀ a, a < (if sw then 2 else 2) → 0 < (if sw then (fun _ => 2) a else (fun _ => 1) a)) ∧
+      freqPlan (.slice ⟨some 0, some 10, some 3⟩) 16 8 = .ok ([0, 3, 6, 9], 4, 2) := by
+  intro mk sw
+  refine ⟨fun _ _ => rfl, fun _ _ => rfl, ?_, by decide⟩
+  intro a _
+  cases sw <;> simp
+
+/-- … and the model run end to end on that set-up (α = ℤ, toy process and kernel): both directions
+    succeed, the receivers get 2 rows of 8 entries each, the transmitters (switched) 1 row -/
+example :
+    let m : Mu Int := Mu.init 2 2 [(0, 1), (2, 3)] (some (2, 1)) true
+    let proc : Proc Int := fun l pos i r t => (l : Int) + pos + 2 * i + 3 * r + 5 * t
+    let fftK : Fft Int := fun v _ k => v.sum * (k + 1)
+    ((m.corruptFreq proc fftK [[[1, 2, 3, 4, 5, 6, 7, 8]], [[8, 7, 6, 5, 4, 3, 2, 1]]] 16
+        (.slice ⟨some 0, some 10, some 3⟩)).map (fun r => r.2.map (fun y => y.map List.length)))
+      = .ok [[8, 8], [8, 8]] ∧
+    (((m.setSwitched true).corruptFreq proc fftK
+        [[[1, 2, 3, 4], [0, 1, 0, 1]], [[4, 3, 2, 1], [1, 0, 1, 0]]] 16
+        (.slice ⟨some 0, some 10, some 3⟩)).map (fun r => r.2.map (fun y => y.map List.length)))
+      = .ok [[4], [4]] := by
+  decide +kernel
 
 /-! ## discretisation of a tap profile -/
 
